@@ -195,6 +195,13 @@ class SqliteStateStore(Generic[MODEL_T]):
 
     async def set_state(self, state: MODEL_T) -> None:
         """Replace or merge into the current state model."""
+        # Same lock as edit_state() / set(): a set_state() or clear() that lands
+        # while an edit_state() block is suspended must not be overwritten when
+        # the block writes back what it loaded before.
+        async with self._lock:
+            self._set_state_locked(state)
+
+    def _set_state_locked(self, state: MODEL_T) -> None:
         conn = self._connect()
         try:
             cursor = conn.cursor()
